@@ -13,8 +13,8 @@ MANIFEST = {
     "technique": 'Lean 4 proof over the executable world model; differential correspondence of whole histories against the real FakeTRX objects; black-box property reference as failing-input oracle',
     "design_ref": "DESIGN.md section 5 C10",
 }
-CORR_PROFILES = ['traffic', 'mixed']
-ORACLE_PROFILES = ['traffic', 'mixed']
+CORR_PROFILES = ['radio', 'traffic', 'mixed']
+ORACLE_PROFILES = ['radio', 'traffic', 'mixed']
 
 
 def gen(run):
